@@ -31,6 +31,7 @@ type ObRecord struct {
 	Replay  string  `json:"replay,omitempty"`
 	Decisive bool   `json:"decisive,omitempty"` // a refutation by this back end counts even without a model (sound may-analysis)
 	ReplayOutcome string `json:"replay_outcome,omitempty"`
+	Trivial bool `json:"trivial,omitempty"` // syntactically true clause kept for its name
 }
 
 // Job is one unit of checking work contributing records to a property.
@@ -207,11 +208,13 @@ func (ctx *checkCtx) runSymbolic() *JobResult {
 	}
 	wg.Wait()
 	sort.Slice(results, func(i, j int) bool { return results[i].Key < results[j].Key })
-	if ctx.tier != "thorough" {
+	if ctx.tier != "thorough" && !ctx.update {
+		// (a baseline update gives every obligation the full budget, so that a
+		// transient timeout recorded earlier does not stick)
 		bp := loadBaseline().Obligations[ctx.prop]
 		ctx.opts.ShortOnly = func(name string) bool {
 			st, ok := bp[name]
-			return ok && st != "proved"
+			return ok && st != "proved" && st != "proved-slow"
 		}
 	}
 	solveAll(results, ctx.opts)
@@ -254,7 +257,7 @@ func (ctx *checkCtx) runSymbolic() *JobResult {
 			jr.Havocs = append(jr.Havocs, r.Key+": "+a)
 		}
 		for _, o := range append(append([]*Obligation{}, r.Obligations...), r.Covers...) {
-			rec := &ObRecord{Name: o.Name, Kind: o.Kind, Fn: o.Fn, Status: o.Status, Backend: o.Backend, Secs: o.Secs, Model: o.Model, Pos: o.Pos2, Cover: o.Cover}
+			rec := &ObRecord{Name: o.Name, Kind: o.Kind, Fn: o.Fn, Status: o.Status, Backend: o.Backend, Secs: o.Secs, Model: o.Model, Pos: o.Pos2, Cover: o.Cover, Trivial: o.Trivial}
 			if o.Known != nil {
 				rec.Known = o.Known.What
 				rec.KnownProp = o.Known.Property
@@ -534,6 +537,16 @@ func (ctx *checkCtx) report(total *JobResult, update, verbose bool, start time.T
 	return 0
 }
 
+func countTrivial(total *JobResult) int {
+	n := 0
+	for _, r := range total.Records {
+		if r.Trivial && !r.Cover && !r.Bounded && r.Status == "proved" {
+			n++
+		}
+	}
+	return n
+}
+
 func splitObName(name string) (fn, kind string) {
 	i := strings.Index(name, "#")
 	if i < 0 {
@@ -651,7 +664,8 @@ func writeEvidence(ctx *checkCtx, total *JobResult, obligations, discharged, bou
 		"contract_files":           ctx.cs.Files,
 		"notes":                    total.Notes,
 		"evaluations":              obligations + bounded,
-		"distinct_nontrivial":      discharged,
+		"distinct_nontrivial":      discharged - countTrivial(total),
+		"syntactically_true":       countTrivial(total),
 		"rule":                     "one evaluation = one verification condition generated from /repo's current SSA and decided by an SMT solver or a named special-purpose decider; non-trivial = discharged and not syntactically true",
 	}
 	if level == "proof" && discharged != obligations {
